@@ -45,10 +45,10 @@ Definition strand_state : st := fst (run_sched M (init 1 strand_progs) strand_sc
 Lemma strand_reachable : reachable M (init 1 strand_progs) strand_state.
 Proof. apply run_sched_reachable. apply reach_init. Qed.
 
-Definition status_code (x : status) : nat := match x with SDone => 0 | SReady => 1 | SBlocked => 2 end.
-
 Lemma strand_facts :
-  map (fun t => status_code (status_of strand_state t)) [0;1;2;3;4]%nat = [0;0;2;0;2]%nat /\
+  status_of strand_state 0 = SDone /\ status_of strand_state 1 = SDone /\
+  status_of strand_state 2 = SBlocked /\ status_of strand_state 3 = SDone /\
+  status_of strand_state 4 = SBlocked /\
   nthr strand_state = 5%nat /\
   cell (mem strand_state) c_high = 4 /\ cell (mem strand_state) c_low = 4 /\ csize strand_state = 2 /\
   sleeping_attempt (stk strand_state 2) = Some (ASend 301) /\
@@ -62,17 +62,14 @@ Proof. unfold status_of. intros H. destruct (Nat.ltb_spec t (nthr s)); [lia | re
 
 Lemma strand_stranded : stranded strand_state.
 Proof.
-  destruct strand_facts as (Hst & Hn & Hh & Hl & Hs & Ha2 & Ha4 & _).
-  cbn [map] in Hst. injection Hst as H0 H1 H2 H3 H4.
+  destruct strand_facts as (H0 & H1 & H2 & H3 & H4 & Hn & Hh & Hl & Hs & Ha2 & Ha4 & _).
   split.
   - intros t Ht.
     destruct (Nat.ltb_spec t 5) as [Hlt | Hge].
     + assert (t = 0 \/ t = 1 \/ t = 2 \/ t = 3 \/ t = 4)%nat as D by lia.
-      destruct D as [-> | [-> | [-> | [-> | ->]]]]; rewrite Ht in *; cbn in *; discriminate.
+      destruct D as [-> | [-> | [-> | [-> | ->]]]]; congruence.
     + rewrite status_outside in Ht by (rewrite Hn; exact Hge). discriminate.
   - left. exists 2%nat. split.
-    + split; [rewrite Hn; lia|]. split.
-      * destruct (status_of strand_state 2); cbn in H2; try discriminate; reflexivity.
-      * exists 301. exact Ha2.
+    + split; [rewrite Hn; lia|]. split; [exact H2|]. exists 301. exact Ha2.
     + unfold occupancy. rewrite Hh, Hl, Hs. lia.
 Qed.
